@@ -73,8 +73,14 @@ def linearPathsAux (nb : SegEnd → List SegEnd) (fuel : Nat) : List String → 
       if r.1.length > 1 then r.1 :: linearPathsAux nb fuel rest r.2
       else linearPathsAux nb fuel rest r.2
 
+/-- names of the segment ends that carry a dovetail -/
+def endNames (ps : List (SegEnd × SegEnd)) : List String := ps.flatMap (fun p => [p.1.name, p.2.name])
+
+/-- enough steps for any traversal: every step but the first visits a new name among `endNames` -/
+def pathFuel (st : St) : Nat := (endNames (st.lines.filterMap dovEnds)).length + 2
+
 def linearPaths (st : St) : List (List SegEnd) :=
-  linearPathsAux (otherEnds st) ((segNames st).length + 1) (segNames st) []
+  linearPathsAux (otherEnds st) (pathFuel st) (segNames st) []
 
 def SegEnd.show (x : SegEnd) : String := x.name ++ (if x.right then ":R" else ":L")
 
